@@ -136,8 +136,23 @@ class KauriFam(Family):
     header = 1
     timeout = 1500
 
+    def __init__(self, focus="all"):
+        self.focus = focus
+
     def generate(self, tier, rng):
         quick = tier == "quick"
+        if self.focus == "roles":
+            # C17's consequence clause at the level of the Kauri code: in EVERY position of EVERY tree shape
+            # (also with an incomplete last level) the node that has children forwards the proposal to exactly
+            # them and waits, the childless node hands its vote to its parent at once; then the honest
+            # contributions and the timer
+            for n in range(1, 14 if quick else 22):
+                for bf in (2, 3, 4, 6):
+                    for node in range(1, n + 1):
+                        sc = Scenario("ecdsa", n, bf, node)
+                        hon = [e for e in sc.events() if e[0].startswith("hon")]
+                        yield (f"role-{n}-{bf}-{node}", sc.script(hon + [("timer", [], "timer 1")]))
+            return
         # ---- (1a) every arrival order of the honest contributions
         orders = [("ecdsa", 4, 2, 1), ("ecdsa", 4, 3, 1), ("eddsa", 4, 2, 2), ("bls12", 4, 3, 1),
                   ("ecdsa", 7, 2, 1), ("ecdsa", 7, 2, 2), ("ecdsa", 7, 3, 1), ("eddsa", 7, 6, 1),
